@@ -268,7 +268,7 @@ def property_shape_tuple(g, b):
             restrs.append(("value", _rel(items[0])))
         else:
             restrs.append(("in", repr(items)))
-    restr = restrs[0] if len(restrs) == 1 else (("none",) if not restrs else ("multi", sorted(map(repr, restrs))))
+    restr = restrs[0] if len(restrs) == 1 else (("none",) if not restrs else ("multi", tuple(sorted(map(repr, restrs)))))
 
     def count(prop, dflt):
         vs = list(g.objects(b, sh(prop)))
@@ -277,7 +277,7 @@ def property_shape_tuple(g, b):
         if len(vs) == 1 and isinstance(vs[0], rdflib.Literal) and str(vs[0].datatype) == XSD_INTEGER \
                 and re.match(r"^\d+$", str(vs[0])):
             return int(str(vs[0]))
-        return ("bad", [node_str(g, v) for v in vs])
+        return ("bad", tuple(sorted(node_str(g, v) for v in vs)))
     return (inv, pred, restr, count("minCount", 0), count("maxCount", None))
 
 
